@@ -40,7 +40,7 @@ ListenerListen ==
 
 Effect(f) ==
   CASE f \in {"finish"} -> [ch EXCEPT !.state = "finished", !.rcv = FALSE]
-    [] f \in {"fail"} -> [ch EXCEPT !.state = "failed", !.rcv = FALSE]
+    [] f \in {"fail", "refuse"} -> [ch EXCEPT !.state = "failed", !.rcv = FALSE]   \* ("refuse": and turns the client away for a while)
     [] f \in {"abrupt", "half"} -> [ch EXCEPT !.conn = FALSE, !.rcv = FALSE]          \* end of stream
     [] OTHER -> [ch EXCEPT !.rcv = FALSE, !.conn = IF FixRcvErrRelease THEN FALSE ELSE ch.conn]
 
